@@ -3,5 +3,7 @@ CHECKS = {
     "C01": cc.c01,
     "C02": cc.c02,
     "C03": cc.c03,
+    "C04": cc.c04,
+    "C05": cc.c05,
     "C06": cc.c06,
 }
